@@ -2,7 +2,7 @@ SPECIFICATION Spec
 CONSTANTS
   Variants = {"deadline"}
   Relays = {1, 2}
-  ProvSet <- MCProvNone2
+  FetchSet = {}
   Values = {1, 2}
   CfgSet <- MCCfgOverlap
   TableSet = {"A"}
@@ -14,5 +14,5 @@ CONSTANTS
   MaxAuctions = 2
   MaxOpen = 2
   Deviation = "none"
-INVARIANTS TypeOK WinnerIsArgmax OnlyEligibleWin ProvidersOfferedWinner NoWinnerIffNone ParticipationSound ArrivedConsidered CacheRight ServedRight HistoryShape
+INVARIANTS TypeOK ClientOfAddress WinnerIsArgmax OnlyEligibleWin ProvidersOfferedWinner NoWinnerIffNone ParticipationSound ArrivedConsidered CacheRight ServedRight HistoryShape
 ACTION_CONSTRAINT KeysInOrder
